@@ -27,7 +27,7 @@ WORLD_INFO = {'real': ['cassandra.connection.Connection (process_io_buffer, _rea
                        'requester threads (harness, public Connection API)']}
 ASSUMPTIONS = ['TCP semantics: per-direction FIFO, no loss/duplication inside a live connection',
                'protocol versions 1-4, no compression (v5 segments are C06)']
-REQUIRED_PROBES = ['split_delivery', 'multi_frame_read', 'event_frames']
+REQUIRED_PROBES = ['split_delivery', 'multi_frame_read', 'event_frames', 'empty_body_frame', 'multi_frame_write']
 
 SIZES = [0, 1, 7, 8, 9, 10, 63, 64, 65, 255, 256, 1000, 4095, 4096, 4097, 8192, 20000, 70000]
 
@@ -46,7 +46,7 @@ def gen_plan(rng, tier):
         size = rng.choice(SIZES if big else SIZES[:14])
         reqs.append({'thread': rng.randrange(nthreads), 'size': size,
                      'delay': rng.choice([0, 0, 0.001, 0.002, 0.01, 0.05]),
-                     'kind': rng.choice(['rows', 'rows', 'rows', 'void', 'error']),
+                     'kind': rng.choice(['rows', 'rows', 'rows', 'void', 'error', 'ready']),
                      'think': rng.choice([0, 0, 0.001])})
     events = []
     for i in range(rng.choice([0, 0, 1, 2, 4])):
@@ -93,6 +93,9 @@ class C05Peer(HandshakePeer):
         elif spec['kind'] == 'void':
             body = C.void_body()
             op = C.RESULT
+        elif spec['kind'] == 'ready':
+            body = b''              # header-only frame (what a REGISTER is answered with)
+            op = C.READY
         else:
             body = C.error_body(C.E_INVALID, 'err-%d-' % k + 'x' * min(spec['size'], 2000))
             op = C.ERROR
@@ -100,8 +103,20 @@ class C05Peer(HandshakePeer):
 
         def emit():
             self.stream_log.append((stream, op, body, k))
-            pc.send_frame(v, stream, op, body)
+            if self.plan.get('batch_replies'):
+                # replies that become due at the same instant leave in ONE write (frames coalesced)
+                self.pending_batch.append(C.frame(v, stream, op, body))
+                if len(self.pending_batch) == 1:
+                    sim.at(0.0, lambda: self.flush(pc), 'flush-batch')
+            else:
+                pc.send_frame(v, stream, op, body)
         sim.at(spec['delay'], emit, 'reply rid=%d' % k)
+
+    def flush(self, pc):
+        batch, self.pending_batch = self.pending_batch, []
+        if len(batch) > 1:
+            self.sim.probe('multi_frame_write')
+        pc.send_envelopes(batch)
 
     @staticmethod
     def world_payload(k, size):
@@ -275,8 +290,10 @@ def run_plan(plan, seed, choices=None):
         sim.probe('event_frames', n_events)
     if plan['in_buffer_size'] < 64:
         sim.probe('tiny_read_buffer')
-    if len(sent_frames) >= 2 and (plan['batch_replies'] or plan['lat'][1] == 0.0):
+    if sim.probes.get('multi_frame_write') or (len(sent_frames) >= 2 and plan['lat'][1] == 0.0):
         sim.probe('multi_frame_read')
+    if any(r['kind'] == 'ready' for r in plan['requests']):
+        sim.probe('empty_body_frame')
     if any(r['size'] >= 4096 for r in plan['requests']):
         sim.probe('frame_larger_than_buffer')
     nontrivial = split > 0 and len(delivered) >= 2
